@@ -161,14 +161,27 @@ fn cond(modifier: QueryConditionModifier, data: QueryConditionData) -> QueryCond
     QueryCondition { logic: QueryConditionLogic::And, modifier, data }
 }
 
-fn condition_variants() -> Vec<(&'static str, Vec<QueryCondition>)> {
+/// Condition variants. The last three produce Stop (the traversal is pruned at
+/// some elements): a handler that loses the Stop of an element inside the
+/// skipped offset prefix walks further than the unsliced search.
+fn condition_variants(g: &RefGraph) -> Vec<(&'static str, Vec<QueryCondition>)> {
+    // "x": the second element examined by most searches is not the origin for most origins: take the last node and the newest edge
+    let mut x = vec![QueryId::Id(agdb::DbId(*g.slots.last().unwrap()))];
+    if let Some(e) = g.edges.last() {
+        x.push(QueryId::Id(agdb::DbId(e.id)));
+    }
     vec![
         ("none", vec![]),
         ("node", vec![cond(QueryConditionModifier::None, QueryConditionData::Node)]),
         ("not-keys-k2", vec![cond(QueryConditionModifier::Not, QueryConditionData::Keys(vec![k("k2")]))]),
         ("distance<=2", vec![cond(QueryConditionModifier::None, QueryConditionData::Distance(CountComparison::LessThanOrEqual(2)))]),
+        ("not_beyond-keys-k2", vec![cond(QueryConditionModifier::NotBeyond, QueryConditionData::Keys(vec![k("k2")]))]),
+        ("not_beyond-ids-x", vec![cond(QueryConditionModifier::NotBeyond, QueryConditionData::Ids(x))]),
+        ("beyond-keys-k1", vec![cond(QueryConditionModifier::Beyond, QueryConditionData::Keys(vec![k("k1")]))]),
     ]
 }
+
+const CONDITION_VARIANT_NAMES: [&str; 7] = ["none", "node", "not-keys-k2", "distance<=2", "not_beyond-keys-k2", "not_beyond-ids-x", "beyond-keys-k1"];
 
 fn orderings() -> Vec<Vec<DbKeyOrder>> {
     let a = |s: &str| DbKeyOrder::Asc(k(s));
@@ -437,7 +450,6 @@ pub fn run(args: &Args) -> i32 {
     }
     let report = Report::new(args, "model_checking");
     let fam = family(args.tier == engine::Tier::Thorough);
-    let conds = condition_variants();
     let orders = orderings();
     // work items: (graph, search index); built per item (cheap)
     let mut items = vec![];
@@ -462,6 +474,7 @@ pub fn run(args: &Args) -> i32 {
         let (db, g) = build_memory(spec).unwrap_or_else(|e| engine::machinery_failure(&e));
         let grid = grid_for(&g);
         let search = &ss[si];
+        let conds = condition_variants(&g);
         let mut seen = std::collections::HashSet::new();
         for (ci, (_, c)) in conds.iter().enumerate() {
             for (oi, order) in orders.iter().enumerate() {
@@ -497,11 +510,11 @@ pub fn run(args: &Args) -> i32 {
     }
     report.set("evaluations", json!(searches.load(AO::SeqCst)));
     report.set("distinct_nontrivial", json!(nontrivial.len()));
-    report.set("rule", json!("graph family (8 shapes [thorough: + every history of length <= 3 on two and <= 2 on three node slots] x 3 property patterns) x every search kind and origin (bfs/dfs from/to every element, path between every ordered pair of nodes, elements) x 4 condition variants x 15 order_by lists x every (offset, limit) in ([0..n+3] + {2^64-2, 2^64-1})^2; one evaluation = one search on the real Db. distinct_nontrivial = distinct (graph, unsliced result sequence) with at least 2 elements"));
+    report.set("rule", json!("graph family (8 shapes [thorough: + every history of length <= 3 on two and <= 2 on three node slots] x 3 property patterns) x every search kind and origin (bfs/dfs from/to every element, path between every ordered pair of nodes, elements) x 7 condition variants (3 of them prune the traversal: not_beyond keys, not_beyond ids, beyond keys) x 15 order_by lists x every (offset, limit) in ([0..n+3] + {2^64-2, 2^64-1})^2; one evaluation = one search on the real Db. distinct_nontrivial = distinct (graph, unsliced result sequence) with at least 2 elements"));
     report.set("exhaustive", json!(true));
     report.set("graphs", json!(fam.len()));
     report.set("graph_names", json!(fam.iter().map(|f| f.0.clone()).take(40).collect::<Vec<_>>()));
-    report.set("condition_variants", json!(conds.iter().map(|c| c.0).collect::<Vec<_>>()));
+    report.set("condition_variants", json!(CONDITION_VARIANT_NAMES));
     report.set("order_by_lists", json!(orders.iter().map(|o| order_text(o)).collect::<Vec<_>>()));
     report.set("search_groups", json!(groups.load(AO::SeqCst)));
     report.set("distinct_unsliced_results", json!(distinct.len()));
